@@ -307,15 +307,28 @@ func c12Run(e *core.Env) {
 				body = append(body, jr.P(days[i], names[dc.Com], dc.Price, names[dc.Tgt]))
 			}
 			last := days[len(cur)-1]
+			// once holding all three commodities (an unconnected one must make the command
+			// fail), once holding only those the declarations connect to CHF
+			pl := ref.NewLedger(body)
+			all3, conn := cloneDirs(body), cloneDirs(body)
 			for _, c := range []string{"USD", "EUR", "AAPL"} {
-				body = append(body, jr.T(last, "hold "+c, jr.B(accOpening, accCash, "1", c)))
+				all3 = append(all3, jr.T(last, "hold "+c, jr.B(accOpening, accCash, "1", c)))
+				if _, ok, _ := pl.PriceOn(ref.ParseISO(last), "CHF", c); ok {
+					conn = append(conn, jr.T(last, "hold "+c, jr.B(accOpening, accCash, "1", c)))
+				}
 			}
-			for _, cfg := range []ref.BalCfg{{Valuation: "CHF"}, {Valuation: "CHF", Interval: ref.Daily, NoClose: true}} {
-				key, detail, _, _ := c03One(drv, body, cfg)
-				e.Count("evaluations")
-				e.Count("command_level_cases")
-				if key != "" {
-					e.Violation(strings.Replace(key, "C03:", "C12:command:", 1), detail, c12Case{Decls: append([]c12Decl(nil), cur...)}, nil)
+			bodies := [][]jr.Dir{all3}
+			if len(conn) != len(all3) && len(conn) > len(body) {
+				bodies = append(bodies, conn)
+			}
+			for _, b := range bodies {
+				for _, cfg := range []ref.BalCfg{{Valuation: "CHF"}, {Valuation: "CHF", Interval: ref.Daily, NoClose: true}} {
+					key, detail, _, _ := c03One(drv, b, cfg)
+					e.Count("evaluations")
+					e.Count("command_level_cases")
+					if key != "" {
+						e.Violation(strings.Replace(key, "C03:", "C12:command:", 1), detail, c12Case{Decls: append([]c12Decl(nil), cur...)}, nil)
+					}
 				}
 			}
 		}
@@ -329,6 +342,45 @@ func c12Run(e *core.Env) {
 		}
 	}
 	rj(0)
+	// several declarations for one pair on ONE day, in both directions: the one written last
+	// is the most recent one (every sequence of <= 3 | 4 over 6 declarations)
+	sameDay := []c12Decl{{"X", "V", "2"}, {"X", "V", "3"}, {"V", "X", "2"}, {"V", "X", "4"}, {"Y", "X", "5"}, {"Y", "X", "6"}}
+	var rs func(d int)
+	rs = func(d int) {
+		if e.Expired() {
+			return
+		}
+		if d > 0 && e.Take() {
+			var body []jr.Dir
+			for _, dc := range cur {
+				body = append(body, jr.P(days[0], names[dc.Com], dc.Price, names[dc.Tgt]))
+			}
+			// hold what the declarations connect to CHF (an unconnected holding makes the
+			// whole command fail, which the day-per-declaration part above covers)
+			pl := ref.NewLedger(body)
+			for _, c := range []string{"USD", "EUR"} {
+				if _, ok, _ := pl.PriceOn(ref.ParseISO(days[1]), "CHF", c); ok {
+					body = append(body, jr.T(days[1], "hold "+c, jr.B(accOpening, accCash, "1", c)))
+				}
+			}
+			key, detail, _, _ := c03One(drv, body, ref.BalCfg{Valuation: "CHF"})
+			e.Count("evaluations")
+			e.Count("command_level_cases")
+			if key != "" {
+				e.Violation(strings.Replace(key, "C03:", "C12:command:same-day:", 1), detail, c12Case{Decls: append([]c12Decl(nil), cur...)}, nil)
+			}
+		}
+		if d == depth {
+			return
+		}
+		for _, p := range sameDay {
+			cur = append(cur, p)
+			rs(d + 1)
+			cur = cur[:len(cur)-1]
+		}
+	}
+	cur = nil
+	rs(0)
 	if e.Take() {
 		// prices declared in the root file, positions in two included files: the valued
 		// report under every loader schedule equals the single-file one (validated against
